@@ -1506,6 +1506,15 @@ def _np_array(i, a, k):
     raise OutOfSubset('np.array of ' + kind_of(v))
 
 
+def _np_asarray(i, a, k):
+    """np.asarray of an array of the requested dtype is THE SAME object (candle arrays are float64): no copy is made, a store
+    into the result writes into the argument"""
+    v = a[0]
+    if isinstance(v, (Vec, Arr)):
+        return v
+    return _np_array(i, a, k)
+
+
 def _shape_arg(shape):
     if isinstance(shape, (tuple, list)):
         if len(shape) == 1:
@@ -2015,7 +2024,7 @@ def ext_call(name):
     global _EXT
     if _EXT is None:
         _EXT = {
-            'numpy.array': _np_array, 'numpy.asarray': _np_array, 'numpy.zeros': _np_zeros, 'numpy.full': _np_full,
+            'numpy.array': _np_array, 'numpy.asarray': _np_asarray, 'numpy.zeros': _np_zeros, 'numpy.full': _np_full,
             'numpy.empty': _np_zeros,
             'numpy.zeros_like': lambda i, a, k: _np_like(i, a, k, Fraction(0)),
             'numpy.empty_like': lambda i, a, k: _np_like(i, a, k, Fraction(0)),
